@@ -614,6 +614,15 @@ pub enum WriteFault {
     IoErr { call: u32, errkind: String },
     /// `Ok(0)`: `write_all` must turn it into `WriteZero`
     Zero { call: u32 },
+    /// the `flush`-th call of `flush` returns `ErrorKind::Interrupted` (nothing is lost: the sink
+    /// keeps what it accepted). A writer may retry or give the error back.
+    FlushEintr { flush: u32 },
+    /// the `flush`-th call of `flush` fails for good
+    FlushErr { flush: u32, errkind: String },
+    /// not a fault but a sink mode: the sink implements `write_vectored` itself - all slices are
+    /// offered as one write, so a short write may end inside any of them (std's default
+    /// implementation only ever offers the first non-empty slice)
+    Vectored,
 }
 
 impl WriteFault {
@@ -624,10 +633,12 @@ impl WriteFault {
             | WriteFault::WouldBlock { call }
             | WriteFault::IoErr { call, .. }
             | WriteFault::Zero { call } => *call,
+            // flush faults index flush calls, the sink mode indexes nothing
+            WriteFault::FlushEintr { .. } | WriteFault::FlushErr { .. } | WriteFault::Vectored => u32::MAX,
         }
     }
     pub fn is_hard(&self) -> bool {
-        !matches!(self, WriteFault::Short { .. } | WriteFault::Eintr { .. })
+        !matches!(self, WriteFault::Short { .. } | WriteFault::Eintr { .. } | WriteFault::FlushEintr { .. } | WriteFault::Vectored)
     }
     pub fn tag(&self) -> &'static str {
         match self {
@@ -636,6 +647,9 @@ impl WriteFault {
             WriteFault::WouldBlock { .. } => "wouldblock",
             WriteFault::IoErr { .. } => "io_err",
             WriteFault::Zero { .. } => "zero",
+            WriteFault::FlushEintr { .. } => "flush_eintr",
+            WriteFault::FlushErr { .. } => "flush_err",
+            WriteFault::Vectored => "vectored_sink",
         }
     }
 }
@@ -664,6 +678,9 @@ pub struct FaultyWriter {
     pub hard_error_kind: Option<std::io::ErrorKind>,
     pub calls_after_error: u32,
     pub flushes: u32,
+    /// a flush returned `Interrupted` (the writer may legitimately hand that error back)
+    pub flush_interrupted: bool,
+    pub vectored_calls: u32,
     pub fired_tags: Vec<&'static str>,
     pub yield_points: bool,
 }
@@ -678,6 +695,8 @@ impl FaultyWriter {
             hard_error_kind: None,
             calls_after_error: 0,
             flushes: 0,
+            flush_interrupted: false,
+            vectored_calls: 0,
             fired_tags: Vec::new(),
             yield_points,
         }
@@ -733,13 +752,45 @@ impl std::io::Write for FaultyWriter {
                         self.hard_error_kind.get_or_insert(std::io::ErrorKind::WriteZero);
                         Ok(0)
                     }
+                    // never selected by `call()`
+                    WriteFault::FlushEintr { .. } | WriteFault::FlushErr { .. } | WriteFault::Vectored => unreachable!(),
                 }
             }
         }
     }
 
+    fn write_vectored(&mut self, bufs: &[std::io::IoSlice<'_>]) -> std::io::Result<usize> {
+        if self.plan.iter().any(|f| matches!(f, WriteFault::Vectored)) {
+            self.vectored_calls += 1;
+            if self.vectored_calls == 1 {
+                self.fired_tags.push("vectored_sink");
+            }
+            let all: Vec<u8> = bufs.iter().flat_map(|b| b.iter().copied()).collect();
+            self.write(&all)
+        } else {
+            // std's default: the first non-empty slice only
+            let buf = bufs.iter().find(|b| !b.is_empty()).map_or(&[][..], |b| &**b);
+            self.write(buf)
+        }
+    }
+
     fn flush(&mut self) -> std::io::Result<()> {
+        let idx = self.flushes;
         self.flushes += 1;
-        Ok(())
+        let f = self.plan.iter().find(|f| matches!(f, WriteFault::FlushEintr { flush } | WriteFault::FlushErr { flush, .. } if *flush == idx)).cloned();
+        match f {
+            Some(WriteFault::FlushEintr { .. }) => {
+                self.fired_tags.push("flush_eintr");
+                self.flush_interrupted = true;
+                Err(std::io::ErrorKind::Interrupted.into())
+            }
+            Some(WriteFault::FlushErr { errkind: k, .. }) => {
+                self.fired_tags.push("flush_err");
+                self.hard_error_at.get_or_insert(self.calls);
+                self.hard_error_kind.get_or_insert(errkind(&k));
+                Err(errkind(&k).into())
+            }
+            _ => Ok(()),
+        }
     }
 }
